@@ -14,7 +14,7 @@ import types
 
 import pandas as pd
 
-from .. import core
+from .. import core, iosession
 from ..impl import mx, close_all, quiet, err_kind
 
 NAMES = ["A", "B", "A_BAK1", "A_BAK2", "B_BAK1", "Model1", "Model2", "Model3"]
@@ -72,6 +72,7 @@ class Impl:
         self.template = None
         self.shown = {}       # id(pandas object) -> (the object, its text): contents never change in a session
         self.nio = {}         # creation index -> number of io names handed out
+        self.shadow = iosession.Shadow(tmp)   # the same session as operations of the Lean kernel IOSession
 
     def saved_path(self, name, broken):
         key = (name, broken)
@@ -131,6 +132,7 @@ class Impl:
                     nm = None if op[1] == "-" else ("" if op[1] == "%empty" else op[1])
                     m = mx.new_model(nm)
                     self.models.append(m)
+                    self.shadow.new_model(m)
                     self._populate(m)
                     return "ok %d" % (len(self.models) - 1)
                 # stale handles (of closed models) are used for real: what the library does with them is the
@@ -148,13 +150,18 @@ class Impl:
                 if kind == "close":
                     m = self.models[int(op[1])] if int(op[1]) < len(self.models) else None
                     if m is None:
+                        self.shadow.close(int(op[1]))
                         return "ok"
                     m.close()
+                    self.shadow.close(int(op[1]))
                     return "ok"
                 if kind == "read":
                     self.models.append(None)
                     path = self.saved_path(op[1], op[2] == "1")
-                    m = mx.read_model(path)
+                    # a save that is broken in S/__init__.py fails at the parse, before any IOSpec is read
+                    items = [] if op[2] == "1" else [("S.df", "data/df.csv", False, None, True),
+                                                     (".mod", "mod/mod.py", False, None, True)]
+                    m = self.shadow.load(items, lambda: mx.read_model(path))
                     self.models[-1] = m
                     return "ok %d" % (len(self.models) - 1)
                 if kind == "io":
@@ -225,33 +232,47 @@ class Impl:
         n = self.nio.get(i, 0)
         self.nio[i] = n + 1
         nm = "io%d" % n
+        sh = self.shadow
         if k == 0:
-            s.new_pandas(nm, "data/%s.csv" % nm, _frame(n), file_type="csv")
+            sh.new_spec(i, "S", nm, "data/%s.csv" % nm, False, None,
+                        lambda: s.new_pandas(nm, "data/%s.csv" % nm, _frame(n), file_type="csv"))
         elif k == 1:
-            s.new_pandas(nm, self.ext_path(i, nm + ".csv"), _frame(n), file_type="csv")
+            sh.new_spec(i, "S", nm, self.ext_path(i, nm + ".csv"), False, None,
+                        lambda: s.new_pandas(nm, self.ext_path(i, nm + ".csv"), _frame(n), file_type="csv"))
         elif k == 2:
-            s.new_pandas(nm, self.ext_path(i, "book.xlsx"), _frame(n), file_type="excel", sheet=nm)
+            sh.new_spec(i, "S", nm, self.ext_path(i, "book.xlsx"), True, nm,
+                        lambda: s.new_pandas(nm, self.ext_path(i, "book.xlsx"), _frame(n), file_type="excel",
+                                             sheet=nm))
         elif k == 9:
-            s.new_pandas(nm, "data/book.xlsx", _frame(n), file_type="excel", sheet=nm)
+            sh.new_spec(i, "S", nm, "data/book.xlsx", True, nm,
+                        lambda: s.new_pandas(nm, "data/book.xlsx", _frame(n), file_type="excel", sheet=nm))
         elif k == 3:
-            m.new_module(nm, "mod/%s.py" % nm, self.module_source())
+            sh.new_spec(i, "", nm, "mod/%s.py" % nm, False, None,
+                        lambda: m.new_module(nm, "mod/%s.py" % nm, self.module_source()))
         elif k == 4:
-            s.new_module(nm, self.ext_path(i, nm + ".py"), self.module_source())
+            sh.new_spec(i, "S", nm, self.ext_path(i, nm + ".py"), False, None,
+                        lambda: s.new_module(nm, self.ext_path(i, nm + ".py"), self.module_source()))
         elif k == 5:
-            s.new_excel_range(nm, "data/%s.xlsx" % nm, "A1:B3", sheet="s", keyids=["r0"], loadpath=self.workbook())
+            sh.new_spec(i, "S", nm, "data/%s.xlsx" % nm, False, None,
+                        lambda: s.new_excel_range(nm, "data/%s.xlsx" % nm, "A1:B3", sheet="s", keyids=["r0"],
+                                                  loadpath=self.workbook()))
         elif k == 6:
-            m.new_excel_range(nm, self.ext_path(i, nm + ".xlsx"), "A1:B3", sheet="s", keyids=["r0"],
-                              loadpath=self.workbook())
+            sh.new_spec(i, "", nm, self.ext_path(i, nm + ".xlsx"), False, None,
+                        lambda: m.new_excel_range(nm, self.ext_path(i, nm + ".xlsx"), "A1:B3", sheet="s",
+                                                  keyids=["r0"], loadpath=self.workbook()))
         elif k == 7:
             for par in (s, m):
                 names = [x for x in par.refs if x.startswith("io") and (par is m or x in par._impl.own_refs)]
                 if names:
-                    delattr(par, sorted(names, key=lambda x: int(x[2:].split("_")[0]))[-1])
+                    victim = sorted(names, key=lambda x: int(x[2:].split("_")[0]))[-1]
+                    delattr(par, victim)
+                    sh.unbind(i, "S" if par is s else "", victim)
                     break
         elif k == 8:
             for x, v in s.refs.items():
                 if x.startswith("io") and x in s._impl.own_refs:
                     setattr(m, x + "_alias", v)
+                    sh.bind(i, "", x + "_alias", v)
                     break
 
     def _edit(self, m, k):
@@ -389,7 +410,9 @@ def run_history(ops, out, hist_id, stats, final_write=True):
             desc_before = {i: cache[i] if i in cache else impl.describe(m) for i, m in before.items()}
             cache = {}
             reg_before = [(key, id(im)) for key, im in mx.core.mxsys.models.items()]
+            impl.shadow.k = k
             res = impl.apply(op)
+            impl.shadow.observe()
             if op[0] in ("edit", "io"):
                 if reg_before != [(key, id(im)) for key, im in mx.core.mxsys.models.items()]:
                     out.fail("an edit of a model changed the registry", ops[:k + 1])
@@ -453,6 +476,9 @@ def run_history(ops, out, hist_id, stats, final_write=True):
                     stats["final_writes"] = stats.get("final_writes", 0) + 1
                     if missing:
                         out.fail("writing model #%d did not write the files of its IOSpecs: %s" % (i, missing), ops)
+        # ---- the session-wide IOManager next to the Lean kernel IOSession: per-model iospecs and the keys of
+        # IOManager.ios after every operation
+        impl.shadow.compare(out, ops, stats)
         model_lines = core.run_driver("registry", model_ops)[1:]
         for j, (a, b) in enumerate(zip(impl_lines, model_lines)):
             b = b.split(" | ")[0].rstrip()
@@ -477,6 +503,7 @@ def run(ctx, out):
          ["close", "0"], ["new", "-"]],
         [["new", "A"], ["read", "A", "0"], ["read", "A", "1"], ["rename", "0", "B", "0"], ["rename", "1", "B", "0"]],
     ]
+    corpus = corpus + iosession.corpus_histories("C19")
     hists = list(corpus)
     for i in range(n_hist):
         hists.append(gen_history(ctx.rng("hist", i), length))
